@@ -91,3 +91,36 @@ Definition narrowed_paths_fail : Prop :=
   path_ok ("x#1", "m.mu", ["c"; "store"], true, [ILock "m.mu"; IRead "c"; IWrite "c"; IUnlock "m.mu"; IWrite "store"]) = false /\
   path_ok ("x#1", "m.mu", ["c"], true, [IRLock "m.mu"; IRead "c"; IRUnlock "m.mu"]) = false /\
   path_ok ("x#1", "m.mu", ["c"], true, [ILock "m.mu"; IRead "c"; IWrite "c"; IUnlock "m.mu"; IWrite "store"]) = true.
+
+(* check-then-act in ONE exclusive section: whenever an in-memory counter is written, the same counter has been
+   read since the exclusive lock was taken (the value stored is decided from a value seen under that lock, not
+   from a snapshot taken under a lock that was released in between).  Store writes and the persist helpers'
+   pseudo-locations are not counters. *)
+Definition is_counter_loc (l : string) : bool :=
+  negb (String.eqb l "store") && negb (prefix "persist" l).
+
+(* the counters whose value, seen under the lock, may decide the value written to [l]: the counter itself; the
+   per-version maximum MaxLabel[v] may also be set from the repo-wide maximum (newLabel / newLabels assign the
+   label they have just drawn, which exceeds every per-version maximum) *)
+Definition decided_from (l : string) : list string :=
+  if String.eqb l "MaxLabel" then ["MaxLabel"; "MaxRepoLabel"] else [l].
+
+Fixpoint write_rechecked (mu : string) (locs : list string) (evs : list iev) (ex : bool) (seen : list string) : bool :=
+  match evs with
+  | [] => true
+  | ILock m :: r => if String.eqb m mu then write_rechecked mu locs r true [] else write_rechecked mu locs r ex seen
+  | IUnlock m :: r => if String.eqb m mu then write_rechecked mu locs r false [] else write_rechecked mu locs r ex seen
+  | IRead l :: r => write_rechecked mu locs r ex (if ex then l :: seen else seen)
+  | IWrite l :: r =>
+    (if smem l locs && is_counter_loc l then ex && existsb (fun d => smem d seen) (decided_from l) else true)
+    && write_rechecked mu locs r ex seen
+  | _ :: r => write_rechecked mu locs r ex seen
+  end.
+
+Definition path_rechecked (p : string * string * list string * bool * list iev) : bool :=
+  let '(_, mu, locs, _, evs) := p in write_rechecked mu locs evs false [].
+
+(* a path that writes a counter from a snapshot read under a released read lock fails the obligation *)
+Definition stale_snapshot_path : string * string * list string * bool * list iev :=
+  ("example.staleSnapshot", "mu", ["Max"; "store"], false,
+   [IRLock "mu"; IRead "Max"; IRUnlock "mu"; ILock "mu"; IWrite "Max"; IWrite "store"; IUnlock "mu"]).
